@@ -64,3 +64,174 @@ def top_groups(pattern):
         else:
             out.append((None, [(op, av)]))
     return out
+
+
+# ---- nested-quantifier (catastrophic backtracking) analysis ------------------------------------------------------
+def _unbounded(op, av):
+    return str(op) in ("MAX_REPEAT", "MIN_REPEAT") and av[1] is sre_parse.MAXREPEAT
+
+
+def _nullable(seq):
+    for op, av in seq:
+        n = str(op)
+        if n in ("AT", "ASSERT", "ASSERT_NOT", "GROUPREF_EXISTS"):
+            continue
+        if n in ("MAX_REPEAT", "MIN_REPEAT", "POSSESSIVE_REPEAT"):
+            if av[0] == 0 or _nullable(av[2]):
+                continue
+            return False
+        if n == "SUBPATTERN":
+            if _nullable(av[3]):
+                continue
+            return False
+        if n == "BRANCH":
+            if any(_nullable(a) for a in av[1]):
+                continue
+            return False
+        if n == "ATOMIC_GROUP":
+            if _nullable(av):
+                continue
+            return False
+        return False
+    return True
+
+
+def _alternatives(seq):
+    """the sequences a repeat body can be, looking through groups and branches that make up the *whole* body"""
+    seq = list(seq)
+    if len(seq) == 1:
+        op, av = seq[0]
+        n = str(op)
+        if n == "SUBPATTERN":
+            return _alternatives(av[3])
+        if n == "BRANCH":
+            out = []
+            for a in av[1]:
+                out += _alternatives(a)
+            return out
+    return [seq]
+
+
+def nested_quantifier_hazards(seq, path=""):
+    """[(description, outer repeat node, inner repeat node)]: an unbounded repeat one of whose body alternatives is, up to
+    nullable neighbours and zero-width assertions, itself an unbounded repeat -- (X+)*, (X+|Y)*, (X*Y?)+ ... -- so that a run
+    of X can be split over the iterations in exponentially many ways when the rest of the pattern fails to match"""
+    out = []
+    for k, (op, av) in enumerate(seq):
+        n = str(op)
+        here = "%s/%d:%s" % (path, k, n)
+        if n in ("MAX_REPEAT", "MIN_REPEAT"):
+            if _unbounded(op, av):
+                for alt in _alternatives(av[2]):
+                    alt = [(o, a) for o, a in alt if str(o) not in ("AT",)]
+                    guards = [x for x in alt if str(x[0]) in ("ASSERT", "ASSERT_NOT")]
+                    core = [x for x in alt if str(x[0]) not in ("ASSERT", "ASSERT_NOT")]
+                    inner = [x for x in core if _unbounded(*x) or (str(x[0]) == "SUBPATTERN" and len(_alternatives([x])) == 1
+                                                                    and len(_alternatives([x])[0]) == 1
+                                                                    and _unbounded(*_alternatives([x])[0][0]))]
+                    rest = [x for x in core if x not in inner]
+                    if inner and not guards and _nullable(rest):
+                        out.append(("unbounded repeat over an alternative that is itself an unbounded repeat", (op, av), inner[0]))
+            out += nested_quantifier_hazards(av[2], here)
+        elif n == "SUBPATTERN":
+            out += nested_quantifier_hazards(av[3], here)
+        elif n == "BRANCH":
+            for a in av[1]:
+                out += nested_quantifier_hazards(a, here)
+        elif n in ("ASSERT", "ASSERT_NOT"):
+            out += nested_quantifier_hazards(av[1], here)
+        elif n == "ATOMIC_GROUP":
+            out += nested_quantifier_hazards(av, here)
+    return out
+
+
+def _min_match(seq, groups=None):
+    """a short string matched by the sequence (best effort; assertions ignored)"""
+    groups = {} if groups is None else groups
+    s = ""
+    for op, av in seq:
+        n = str(op)
+        if n == "LITERAL":
+            s += chr(av)
+        elif n == "NOT_LITERAL":
+            s += "a" if av != ord("a") else "b"
+        elif n == "ANY":
+            s += "a"
+        elif n == "IN":
+            s += _char_in(av)
+        elif n in ("MAX_REPEAT", "MIN_REPEAT", "POSSESSIVE_REPEAT"):
+            s += _min_match(av[2], groups) * av[0]
+        elif n == "SUBPATTERN":
+            g = _min_match(av[3], groups)
+            if av[0] is not None:
+                groups[av[0]] = g
+            s += g
+        elif n == "BRANCH":
+            s += _min_match(av[1][0], groups)
+        elif n == "GROUPREF":
+            s += groups.get(av, "")
+        elif n == "ATOMIC_GROUP":
+            s += _min_match(av, groups)
+    return s
+
+
+def _char_in(items):
+    neg = items and str(items[0][0]) == "NEGATE"
+    import re as _re
+    if not neg:
+        for o, v in items:
+            if str(o) == "LITERAL":
+                return chr(v)
+            if str(o) == "RANGE":
+                return chr(v[0])
+        cat = [v for o, v in items if str(o) == "CATEGORY"]
+        for c in "a1 _-":
+            if cat and _cat(cat[0], c):
+                return c
+        return "a"
+    for c in "ab1 x-":
+        ok = True
+        for o, v in items[1:]:
+            if (str(o) == "LITERAL" and chr(v) == c) or (str(o) == "RANGE" and v[0] <= ord(c) <= v[1]) or \
+                    (str(o) == "CATEGORY" and _cat(v, c)):
+                ok = False
+        if ok:
+            return c
+    return "a"
+
+
+def _cat(cat, c):
+    n = str(cat)
+    return {"CATEGORY_DIGIT": c.isdigit(), "CATEGORY_NOT_DIGIT": not c.isdigit(), "CATEGORY_SPACE": c.isspace(),
+            "CATEGORY_NOT_SPACE": not c.isspace(), "CATEGORY_WORD": c.isalnum() or c == "_",
+            "CATEGORY_NOT_WORD": not (c.isalnum() or c == "_")}.get(n, False)
+
+
+def attack_strings(pattern_text, flags=0, ks=(16, 20, 24)):
+    """for each hazard: prefix (a minimal match of what precedes the outer repeat) + pumped inner character * k"""
+    tree = sre_parse.parse(pattern_text, flags)
+    out = []
+
+    def walk(seq, prefix, groups):
+        seq = list(seq)
+        for i, (op, av) in enumerate(seq):
+            n = str(op)
+            before = prefix + _min_match(seq[:i], dict(groups))
+            if n in ("MAX_REPEAT", "MIN_REPEAT"):
+                if any(h[1] == (op, av) for h in nested_quantifier_hazards([(op, av)])):
+                    for alt in _alternatives(av[2]):
+                        for x in alt:
+                            y = x
+                            while str(y[0]) == "SUBPATTERN":
+                                y = list(y[1][3])[0]
+                            if _unbounded(*y):
+                                pump = _min_match(y[1][2]) or "a"
+                                out.append([before + pump * k for k in ks])
+                walk(av[2], before, groups)
+            elif n == "SUBPATTERN":
+                walk(av[3], before, groups)
+            elif n == "BRANCH":
+                for a in av[1]:
+                    walk(a, before, groups)
+    walk(tree, "", {})
+    return out
